@@ -50,6 +50,19 @@ def parser_logs() -> list[str]:
     return sorted(os.path.relpath(f, corpus.TESTS) for f in corpus.log_files() if "/parsers/" in f and corpus.log_lines(os.path.relpath(f, corpus.TESTS)))
 
 
+def more_logs(max_lines: int = 320) -> list[str]:
+    """Every other packet log of the repo (bindings, fingerprints, parser samples, eavesdrop cases, schedules, odd packets)."""
+    import os
+
+    used = {r.split("#")[0] for r in SYSTEM_LOGS + OTHER_LOGS}
+    out = []
+    for f in corpus.log_files():
+        rel = os.path.relpath(f, corpus.TESTS)
+        if rel not in used and 3 <= len(corpus.log_lines(rel)) <= max_lines:
+            out.append(rel)
+    return sorted(out)
+
+
 def available(rels) -> list[str]:
     return [r for r in rels if log(r)]
 
